@@ -53,6 +53,19 @@ def generate(rng, tier, stats):
                  "no_faults": rng.random() < 0.95, "canary": canary,
                  "classes": ["uptodate_ready", "uptodate_ready", "uptodate_notready", "uptodate_notready", "none", "old_ready"]}
         c = worldgen.gen_ers_world(rng, stats, force)
+        if rng.random() < 0.15:
+            # a replica set that is the canary for the second time: its Canary condition is False, left over from an earlier
+            # canary episode (both stamps old); the timeout counts from the moment it becomes true again
+            for o in c["objects"]:
+                if o["kind"] == "ExtendedDaemonSetReplicaSet" and o["metadata"]["name"] == "foo-b":
+                    conds = o["status"].setdefault("conditions", [])
+                    conds[:] = [x for x in conds if x["type"] != "Canary"]
+                    conds.insert(0, K.cond("Canary", "False", trans=rng.choice([-700, -3000]), update=rng.choice([-3000, -5000])))
+                    canary["autoFail"].setdefault("canaryTimeout", K.dur(rng.choice([601, 700])))
+            e_ = [o for o in c["objects"] if o["kind"] == "ExtendedDaemonSet"][0]
+            if e_["spec"]["strategy"].get("canary"):
+                e_["spec"]["strategy"]["canary"].setdefault("autoFail", {}).setdefault("canaryTimeout", K.dur(700))
+            wprop.bump(stats, "canary for the second time (a False Canary condition left over)", "yes")
         # restart counts and waiting reasons at the thresholds, start times around maxSlowStartDuration
         for o in c["objects"]:
             if o["kind"] == "Pod" and o["metadata"]["labels"].get("extendeddaemonsetreplicaset.datadoghq.com/name") == "foo-b":
@@ -66,7 +79,7 @@ def generate(rng, tier, stats):
                     o["status"]["containerStatuses"] = [K.container_status("main", restarts=rng.choice([0, 0, apm + 1]), waiting=rng.choice(WAIT),
                                                                            last_finished=rng.choice([None, -60]))]
                     o["status"]["phase"] = "Pending"
-                if rng.random() < 0.2:
+                if rng.random() < 0.3:
                     # several statuses: a harmless waiting reason first, the one that cannot start later (a sidecar, an init container)
                     first = K.container_status("main", restarts=0, waiting=rng.choice(["PodInitializing", "ContainerCreating", "CrashLoopBackOff"]))
                     later = K.container_status("side", restarts=0, waiting=rng.choice(["ImagePullBackOff", "CreateContainerConfigError", "ErrImagePull"]))
